@@ -5,7 +5,7 @@ import json, subprocess
 CHECKS = [
  # id, level, technique, text, note
  ("C01", "exploration", "model-based property testing (proptest histories vs flat-rank reference model)",
-  "Generated histories of write/write_with/delete/delete_with/switch/wait/reopen are run against the real Storage and an independent flat-ranking model; read and contains are compared for every key after every step. Sampling of an unbounded history space: finds ordering/tie/merge regressions with high probability, proves nothing about histories not generated.",
+  "Generated histories of write/write_with/delete/delete_with/switch/wait/reopen are run against the real Storage and an independent flat-ranking model; read and contains are compared for every key after every step; a scale phase reaches >256 versions of a key in one blob and >64 blobs with the top-ranked record in one of the oldest. Sampling of an unbounded history space: finds ordering/tie/merge regressions with high probability, proves nothing about histories not generated.",
   "Trusts the reference model (harness/src/model.rs, written from the property statement), tmpfs file semantics, hooks only for the idle probe."),
  ("C02", "exploration", "model-based property testing (proptest histories vs reference model)",
   "Same engine as C01 with metadata, several markers, both only_if_presented values and both duplicate policies; read_all*, read_with, delete counts and per-blob record counts compared after every step.",
@@ -23,7 +23,7 @@ CHECKS = [
   "Kill: a child process runs a seeded history and is SIGKILLed after a generated number of acknowledgements plus a sub-millisecond delay. Power loss: a history runs under the I/O tap; every file is rebuilt as of a generated event and cut at a generated length beyond its last completed sync (optionally zero-filled tail). In both, init must succeed; every blob whose records tile it exactly must be served in full (all queries equal a model built from the independent parse); every other blob must sit byte-identical in the corrupted dir with a matching count and recovery_blob must return its complete prefix; writes after recovery must survive a further restart, also with all index files lost. Kill additionally: every acknowledged record is physically complete in a served or recoverable blob. Enumerated phase: the active blob cut at a stride of / every byte of its last two records.",
   "Power-loss model = per-file prefix beyond the last completed sync; directory-entry durability and tearing inside synced data are out of scope (as in the statement). The failing crash directory itself is saved as the replay because trace interleavings differ between runs."),
  ("C07", "exploration", "history invariant over byte snapshots of every blob file + append-only rules over the I/O tap trace",
-  "Histories over all public calls, restarts with index damage, one-shot injected I/O failures (n-th create/open/write/short write/sync on blob or index files) and crash-restarts with harness-made blob damage that forces quarantine. After every step every *.blob (work dir and corrupted dir) is compared byte-wise with its previous snapshot (prefix-monotone, or moved intact to the corrupted dir and immutable there), new blob ids must never have been used in either directory, and the tap trace must show only append-position writes to blobs, no truncate/remove/foreign rename of a blob, and no mutation event at all while a batch of every query kind runs at idle.",
+  "Histories over all public calls, restarts with index damage, one-shot injected I/O failures (n-th create/open/write/short write/sync on blob or index files) and crash-restarts with harness-made blob damage that forces quarantine. After every step every *.blob (work dir and corrupted dir) is compared byte-wise with its previous snapshot (prefix-monotone, or moved intact to the corrupted dir and immutable there), new blob ids must never have been used in either directory, and the tap trace must show only append-position writes to blobs, no truncate/remove/foreign rename of a blob, and no mutation event at all while a batch of every query kind runs at idle. A further phase makes one offline-tools call (recovery_blob / migrate_blob / move_and_recover_blob) whose output is the input blob itself under a spelling Path equality identifies with it: whatever it answers, every blob keeps its earlier bytes as a prefix.",
   "Blob damage injected by the harness re-baselines the snapshot. A failed write keeps its reserved range for the session; after a restart the file's real length is the baseline. Crash copies are exercised by C06 with its own no-harm clauses."),
  ("C08", "exploration", "concurrent history checking: N real client tasks with logical-clock stamps, max-register linearizability conditions, sequential-model equality at quiescence, independent parse of every blob file",
   "2-200 client tasks (bursts of 500-12000 writers) run seeded scripts against one Storage while a maintenance task switches/syncs/frees/closes underneath and blobs rotate every 20-80 records, on three runtime configurations and on fresh or reopened active blobs. Every completed read is checked against the three max-register linearizability conditions (nothing invented, not stale, monotone), the final state against the sequential model of acknowledged operations, and every blob file against tiling / offset / checksum / exactly-once rules. Deadlock is reported only on a structural witness from the H3 probe. A second phase (lifecycle storm) closes the active blob and releases 4-32 clients by a barrier that all restore / create the active blob and write a fresh key, for 40-140 rounds per case; every acknowledged write must stay readable after each round, at quiescence and after a restart.",
@@ -41,11 +41,11 @@ CHECKS = [
   "Generated histories with dirty-byte limits {0,1,100,4096,1MiB,default}, value sizes around the write-path thresholds and concurrent write bursts run under the I/O tap with payload capture; the ordered trace must satisfy: blob header synced before the first record, index marked complete only after the blob bytes it describes were synced, explicit fsyncdata / close of the active blob / close leave no un-synced byte of that blob, at every idle point the active blob's un-synced bytes are within the limit, and when close() of the storage has returned every byte of every blob file is covered by a completed sync. A second generated phase injects one failing sync of a blob file (failpoint, EIO/ENOSPC) into write/burst/fsyncdata histories and judges the idle rule at every idle point that follows an acknowledged write made after the failure.",
   "A write counts as covered by a sync only if its end event precedes the sync's begin event. 'Eventually' is judged at quiescence (H3 probe)."),
  ("C13", "exploration", "property testing of liveness at quiescence: arbitrary call sequences followed by an overflow probe judged through the background-worker probe",
-  "Generated sequences over all public calls (all *_in_background variants in every active-blob state, force_update predicates incl. a slow one that makes the worker late for a pending deferred dump, data ops, restarts) with tiny blob limits; then the active blob is aged past the 200 ms debounce and over-filled; at idle (nothing queued, nothing running) the worker must be alive, a switch must have happened, every non-empty closed blob must have a complete current index file, and close() must return.",
+  "Generated sequences over all public calls (all *_in_background variants in every active-blob state, force_update predicates incl. a slow one that makes the worker late for a pending deferred dump, data ops, restarts) with tiny blob limits; then the active blob is aged past the 200 ms debounce and over-filled; at idle (nothing queued, nothing running) the worker must be alive, a switch must have happened, every non-empty closed blob must have a complete current index file, and close() must return. Enumerated phases: a caller-owned dump semaphore held by somebody else for a while; a steady stream of deletion markers into a closed blob with gaps below the deferred-dump minimum, during which the index must be written again within the documented maximum waiting time (judged only after ten maxima plus 3 s).",
   "Liveness is judged at quiescence observed through hook H3, so a missing switch is definite; a close() that does not return within 120 s ends the run inconclusive (exit 2)."),
  ("C14", "fault_enumeration", "cancellation-point enumeration: victim future polled with a flag waker and dropped after k resumptions, judged against applied / not-applied / applied-from-restart model worlds",
   "Generated prefix, one victim call of every kind (writes across the size thresholds, deletes over several blobs, close/create/restore of the active blob, fsyncdata) dropped after k resumptions on both runtime flavours, generated suffix and restarts. All data answers must match a world in which the victim is applied entirely or not at all (a record that reached the file but not the index may take effect from a restart on); later operations must succeed; after the final restart nothing is quarantined and every blob file parses and validates. Enumerated phase: every victim kind x every k x both runtimes x fresh/reopened active blob. Init phase: init / init_lazy polled 1-16 times and dropped on a storage with a harness-owned one-permit dump semaphore - the permit must be back once nothing is in flight, then the same object is initialised again and judged against the model. Overlap phase: one-thread blocking pool held by a gate, a write polled once and dropped, the next write started at once, gate opened - acknowledged writes read back exactly, the dropped one is absent or complete, blobs parse completely, nothing is quarantined at an index-less restart.",
-  "Suspension points are those the runtime produces. Open known findings: a dropped blob creation leaves an empty blob file that the next start quarantines; a dropped delete may have marked only some of the blobs."),
+  "Suspension points are those the runtime produces, plus those of tokio's cooperative budget: the last poll of the victim can be given j budget units, so that the (j+1)-th lock / channel / join handle it touches answers Pending (generated, and swept for every victim kind). Open known findings: a dropped blob creation leaves an empty blob file that the next start quarantines; a dropped delete may have marked only some of the blobs."),
  ("C15", "exploration", "model-based property testing of accounting values",
   "records_count*, blobs_count, next_blob_id, corrupted_blobs_count compared with the model after every step of generated histories (restore, delete into closed blobs, forced switches, clean restarts, restarts without close with blob damage that quarantines a blob); disk_used compared with the directory listing at every idle point.",
   "The id printed for the active entry of records_count_detailed is not asserted (only its count). disk_used is compared only at idle points (no dump in flight)."),
@@ -53,8 +53,8 @@ CHECKS = [
   "Blobs produced by generated single-blob histories; undamaged files must pass validate_blob/validate_index, read_index must report exactly the parser's headers, migrate_blob must preserve every record. One generated damage (truncation inside a record per class, or a flipped byte in one of 15 position classes): validate_blob must reject, recovery_blob (skip off/on) must produce a valid blob with every intact record before the damage (and after it when skipping applies), correct blob_offsets, nothing invented, and a Storage opened on the output must serve every contained record with its original bytes. Enumerated phase: blobs of 1500-2600 records recovered / migrated undamaged for validate_every around 1024 and around the record count, also from a version-0 source (0 -> 1 migration).",
   "Known findings (open): flips in the blob header's version/flags fields and decodable flips in meta bytes are accepted by validate_blob (no checksum covers them); those cases print KNOWN-FINDING and are excluded from the reject clause only."),
  ("C17", "exploration", "cross-version differential against a committed corpus written by the pinned tree, exhaustively enumerated index-presence subsets and mismatch mutations",
-  "15 corpus directories written by the pinned release with recorded answers (9 small ones, 3 with multi-level B+tree index files, 3 with key sizes 32 / 128 and timestamps above 2^32 / at u64::MAX); for every subset of removed index files and both init modes the current code must reproduce every recorded answer - also with the bloom buffers off-loaded - and rebuild byte-identical index files; a bumped blob version must make init fail, a bumped index version must be healed by regeneration, another key size must never yield a successful read; opened under another bloom configuration (optionally extended by new blobs and reopened) every recorded answer must still hold.",
-  "Only formats the pinned tree can write; the corpus was extended twice after seeded changes exposed gaps (tree depth, key sizes). The oracle is the old code's recorded behaviour."),
+  "20 corpus directories written by the pinned release with recorded answers (9 small ones, 3 with multi-level B+tree index files, 3 with key sizes 32 / 128 and timestamps above 2^32 / at u64::MAX, 5 with the short key sizes 1 / 2 / 3 / 12 / 16 and bloom filters); for every subset of removed index files and both init modes the current code must reproduce every recorded answer - also with the bloom buffers off-loaded - and rebuild byte-identical index files; a bumped blob version must make init fail, a bumped index version must be healed by regeneration, another key size must never yield a successful read; opened under another bloom configuration (optionally extended by new blobs and reopened) every recorded answer must still hold.",
+  "Only formats the pinned tree can write; the corpus was extended three times after seeded changes exposed gaps (tree depth, key sizes, short keys). The oracle is the old code's recorded behaviour."),
 ]
 
 def main():
